@@ -186,7 +186,10 @@ def type_greater_is_better(ctx, repo):
         if is_call(t) and isinstance(t.a[0], T) and t.a[0].op == "fn" and t.a[0].a[0].endswith("._MetricFunctionWrapper"):
             b = bind_terms(base.methods["__init__"], *call_args(t))
             d = astq.param_defaults(f).get("greater_is_better")
-            ok = b is not None and b.get("greater_is_better") == P("greater_is_better") and isinstance(getattr(d, "value", None), bool)
+            if b is None or "**" in b or "*" in b:
+                ok = None
+            else:
+                ok = b.get("greater_is_better") == P("greater_is_better") and isinstance(getattr(d, "value", None), bool)
     ctx.check(ok, "R1", "make_forecasting_scorer:greater_is_better", "forwards its bool-defaulted greater_is_better unchanged",
               "make_forecasting_scorer does not forward greater_is_better unchanged", ctx.loc(mod, f))
     return all_ok and bool(ok) and n > 0
@@ -693,6 +696,16 @@ def check_fit(ctx, repo, out, cls, bool_typed, eval_score_key, signs):
                               L(ev), vkey="column")
             # generator
             cands = strip_list(elem.a[0])
+            if isinstance(cands, T) and cands.op == "ifexp":
+                # candidates created only when a cached attribute is still unset (first-call-only guard, H1)
+                cached = [x for x in (cands.a[1], cands.a[2]) if isinstance(x, T) and x.op == "attr" and x.a[0] == SELF and contains(cands.a[0], x)]
+                fresh = [x for x in (cands.a[1], cands.a[2]) if is_call(x) and isinstance(x.a[0], T) and x.a[0].op == "fn" and x.a[0].a[0] in GENERATORS]
+                if cached and fresh:
+                    out.add(scen, "violation", "R3", "%s._run_search:generator" % cls.name,
+                            "the candidate generator is created only while self.%s is unset and reused afterwards: a second fit after "
+                            "set_params(%s=...) (or with another random_state / n_iter) still searches the candidates of the first fit"
+                            % (cached[0].a[1], GENERATORS[fresh[0].a[0].a[0]][0]), loc0, "cached-generator")
+                    cands = None
             if isinstance(cands, T) and cands.op == "loopout":
                 # candidates collected in a loop (e.g. over the sub-grids of a list-valued param_grid)
                 nm_, init_, end_, lid_ = cands.a
@@ -843,7 +856,8 @@ def check_fit(ctx, repo, out, cls, bool_typed, eval_score_key, signs):
     from ._c07_prov import UNBOUND
     for name in ("cv_results_", "best_index_", "best_score_", "best_params_", "best_forecaster_"):
         v = heap.get(name)
-        partial = isinstance(v, T) and (v == UNBOUND or (v.op == "phi" and UNBOUND in v.a[0]))
+        from ._c07_prov import arms as _arms
+        partial = isinstance(v, T) and (v == UNBOUND or (_arms(v) is not None and any(x == UNBOUND or x == attr(SELF, name) for x in _arms(v))))
         out.check(scen, v is not None and not partial, "R2", "%s.fit:stores(%s)" % (D, name), "fit stores %s on every path" % name,
                   "fit %s %s: after fit the attribute is missing (AttributeError on access), after a second fit it is the previous search's value"
                   % ("never stores" if v is None else "stores only on some paths", name), loc0, vkey="not-stored")
